@@ -48,8 +48,9 @@ demo = os.path.join(so, "demo.cc")
 if os.path.exists(demo):
     extra = ""
     rs = os.path.join(so, "run_demo.sh")
-    if os.path.exists(rs) and "-fsanitize" in open(rs).read():
-        extra = " ".join(sorted(set(re.findall(r"-fsanitize=\S+", open(rs).read()))))
+    rs_cmds = "\n".join(l for l in (open(rs).read().splitlines() if os.path.exists(rs) else []) if not l.lstrip().startswith("#"))
+    if "-fsanitize" in rs_cmds:
+        extra = " ".join(sorted(set(re.findall(r"-fsanitize=[\w,]+", rs_cmds))))
     def run_demo(lib, inc):
         exe = "/tmp/seed/_demo_%s" % sid
         rc, o = sh("g++ -std=gnu++17 -O1 %s -I%s/src -I%s %s %s -lpthread -o %s" % (extra, inc[0], inc[1], demo, lib, exe))
